@@ -195,14 +195,16 @@ Again(p, s) == IF s.cli.st # "done" THEN {} ELSE CliStart(p, [s EXCEPT !.cli.st 
 \*            next finds nothing held (CliRecvResp in state "down": it is not appended and the body is requested again from
 \*            block 0 - also when that block is the last one)
 Stale(p, s) == IF s.cli.st # "down" \/ s.cli.file = <<>> THEN {} ELSE {[s EXCEPT !.cli.file = <<>>]}
-RetryActs == {[a |-> x, d |-> "c2s", k |-> 0] : x \in {"abandon", "lapse", "restart", "retry", "again", "stale"}}
+\*   stalesrv the same on the server: its reassembly state and the response it holds expire in place - abstractly Lose without the budget
+StaleSrv(p, s) == IF ~(s.srv.sending \/ s.srv.rcv) THEN {} ELSE {[s EXCEPT !.srv.sending = FALSE, !.srv.rcv = FALSE, !.srv.file = <<>>]}
+RetryActs == {[a |-> x, d |-> "c2s", k |-> 0] : x \in {"abandon", "lapse", "restart", "retry", "again", "stale", "stalesrv"}}
 
 Acts == {[a |-> "start", d |-> "c2s", k |-> 0], [a |-> "lose", d |-> "c2s", k |-> 0]}
         \cup {[a |-> x, d |-> d, k |-> 0] : x \in {"deliver", "dup", "drop"}, d \in {"c2s", "s2c"}}
         \cup {[a |-> "replay", d |-> "c2s", k |-> k] : k \in 1..12}
 Apply(p, s, a) == CASE a.a = "start" -> CliStart(p, s) [] a.a = "deliver" -> Deliver(p, s, a.d) [] a.a = "dup" -> Dup(p, s, a.d)
                  [] a.a = "drop" -> Drop(p, s, a.d) [] a.a = "replay" -> Replay(p, s, a.k) [] a.a = "lose" -> Lose(p, s)
-                 [] a.a = "abandon" -> Abandon(p, s) [] a.a = "lapse" -> Lapse(p, s) [] a.a = "restart" -> Restart(p, s) [] a.a = "retry" -> Retry(p, s) [] a.a = "again" -> Again(p, s) [] a.a = "stale" -> Stale(p, s)
+                 [] a.a = "abandon" -> Abandon(p, s) [] a.a = "lapse" -> Lapse(p, s) [] a.a = "restart" -> Restart(p, s) [] a.a = "retry" -> Retry(p, s) [] a.a = "again" -> Again(p, s) [] a.a = "stale" -> Stale(p, s) [] a.a = "stalesrv" -> StaleSrv(p, s)
 
 (* ----------------------------------- C04 ---------------------------------- *)
 \* every delivery to the server application is the exact request body; every body returned to the caller is the exact response body
